@@ -185,7 +185,8 @@ def mk(prog):
 
     def ext_hook(dotted_, args, kw, n):
         last = dotted_.split('.')[-1]
-        if dotted_ == 'x25519.scalar_mult':
+        if dotted_ == 'x25519.scalar_mult' or last in ('crypto_scalarmult', 'crypto_scalarmult_curve25519'):
+            # (libsodium's crypto_scalarmult is the same function X25519 on well-formed 32-byte arguments)
             priv, pub = args
             # X25519: scalar_mult(a, pub(b)) == scalar_mult(b, pub(a)); the secret is a symbol named by the unordered pair
             def owner(v):
@@ -344,6 +345,10 @@ def check(run):
             run.fail('D1', f'AdnlChannel.__init__[{oname}]', f'raises {e}', w)
             continue
         ea, da, eb, db = (chA.attrs.get('enc_key'), chA.attrs.get('dec_key'), chB.attrs.get('enc_key'), chB.attrs.get('dec_key'))
+        for k_ in (ea, da, eb, db):
+            if 'ext:' in vrepr(k_):
+                # a key computed by a library routine the algebraic models do not cover: nothing can be said about the split
+                raise AnalysisError(f'AdnlChannel keys are the result of an unmodelled library call: {vrepr(k_)[:80]}')
         ok = same(it, ea, db) and same(it, da, eb)
         run.check(ok, 'D1', 'AdnlChannel.__init__[key split]' if not ok else f'split[{oname}]',
                   f'{oname}: A.enc={vrepr(ea)[:40]} B.dec={vrepr(db)[:40]} | A.dec={vrepr(da)[:40]} B.enc={vrepr(eb)[:40]}', w, witness=dict(ordering=oname))
